@@ -55,6 +55,9 @@ func findSys(name string) *Sys {
 		if f := s.WithFastPath(); f.Name() == name {
 			return f
 		}
+		if f := s.WithTwoPools(); f.Name() == name {
+			return f
+		}
 		if f := s.WithFastPath(); true {
 			f.Sweep = true
 			if f.Name() == name {
@@ -176,6 +179,22 @@ func TestExploreFP(t *testing.T) {
 		ev("SETDEF1", 0), ev("DISC", 1), ev("DISC", 2), rid(1), ev("REQOWN", 2), ev("ADV", 0), ev("REQOWN", 2), ev("DISC", 2),
 		ev("ADV", 0), ev("CLEAN", 0), ev("DISC", 1), ev("REQSEL", 1), ev("SETDEF2", 0), ev("DISC", 1), rid(1), ev("REL", 1), ev("DISC", 1),
 		ev("REQSEL", 1), ev("DISC", 1), rid(2), ev("REL", 2), ev("SETDEF1", 0), ev("DISC", 1), ev("DISC", 2)}
+	// a lease that moves between two devices behind one circuit (relay) and then ends by release, decline or expiry:
+	// the cache entry of the device that lost the lease must be gone (the battery probes from the first device's MAC)
+	moveEvs := []core.Event{ev("DISC", 1), ev("REQSEL", 1), ev("DISCALT", 1), ev("REQSELALT", 1), ev("REL", 1), ev("DISC", 2), ev("REQSEL", 2),
+		ev("DISC", 1), ev("REQSEL", 1), ev("DISCALT", 1), ev("REQSELALT", 1), ev("DECL", 1), ev("DISC", 1), ev("REQSEL", 1), ev("DISCALT", 1), ev("REQSELALT", 1),
+		ev("ADV", 0), ev("ADV", 0), ev("CLEAN", 0), ev("DISC", 1), ev("REQSEL", 1), ev("DISCALT", 1), ev("REQSELALT", 1), ev("DISC", 1), ev("REQSEL", 1), ev("REL", 1)}
+	{
+		ms := all[2].WithFastPath()
+		tab, pr := core.Chain(ms, ms.Name()+"#move", moveEvs, false)
+		if pr != nil {
+			st.Panics = append(st.Panics, *pr)
+		} else {
+			bundle.Systems = append(bundle.Systems, tab)
+			st.Chains++
+			st.ChainEvents += len(moveEvs)
+		}
+	}
 	for _, ps := range []*Sys{all[0].WithFastPath(), all[2].WithFastPath()} {
 		tab, pr := core.Chain(ps, ps.Name()+"#pools", poolEvs, false)
 		if pr != nil {
@@ -248,6 +267,37 @@ func TestExplore(t *testing.T) {
 				seqv = append(seqv, evs[rng.Intn(len(evs))])
 			}
 			tab, pr := core.Chain(s, fmt.Sprintf("%s#%d", s.Name(), c), seqv, true)
+			if pr != nil {
+				st.Panics = append(st.Panics, *pr)
+				continue
+			}
+			bundle.Systems = append(bundle.Systems, tab)
+			st.Chains++
+			st.ChainEvents += len(seqv)
+		}
+	}
+	// two pools and an operator who changes the default pool while clients are bound, renew, release and expire
+	ev := func(op string, c int) core.Event { return core.Event{"op": op, "c": c, "u": -1} }
+	twoEvs := []core.Event{ev("DISC", 1), ev("REQSEL", 1), ev("SETDEF2", 0), ev("REQOWN", 1), ev("REL", 1), ev("SETDEF1", 0), ev("DISC", 2), ev("REQSEL", 2),
+		ev("SETDEF2", 0), ev("DISC", 1), ev("REQSEL", 1), ev("SETDEF1", 0), ev("REQOWN", 1), ev("ADV", 0), ev("REQOWN", 1), ev("REL", 1), ev("DISC", 1),
+		ev("REQSEL", 1), ev("SETDEF2", 0), ev("ADV", 0), ev("ADV", 0), ev("CLEAN", 0), ev("DISC", 2), ev("REQSEL", 2), ev("SETDEF1", 0), ev("REL", 2), ev("DISC", 2)}
+	for _, base := range []*Sys{chainSys[0], chainSys[2]} {
+		ts := base.WithTwoPools()
+		seqs := [][]core.Event{twoEvs}
+		tevs := ts.Events()
+		for c := 0; c < nchains; c++ {
+			var seqv []core.Event
+			for i := 0; i < chainLen; i++ {
+				if rng.Intn(6) == 0 { // the operator acts often enough to matter
+					seqv = append(seqv, tevs[len(tevs)-1-rng.Intn(2)])
+				} else {
+					seqv = append(seqv, tevs[rng.Intn(len(tevs))])
+				}
+			}
+			seqs = append(seqs, seqv)
+		}
+		for c, seqv := range seqs {
+			tab, pr := core.Chain(ts, fmt.Sprintf("%s#%d", ts.Name(), c), seqv, true)
 			if pr != nil {
 				st.Panics = append(st.Panics, *pr)
 				continue
